@@ -12,6 +12,7 @@ socklen_t inj_fromlen;
 int inj_residue = -1;
 int inj_dest_family;
 unsigned char inj_dest4[4];
+unsigned char inj_dest6[16];
 unsigned char tun_written[16][65536];
 int tun_written_len[16];
 int tun_written_count;
@@ -133,6 +134,19 @@ ssize_t __wrap_recvmsg(int fd, struct msghdr *msg, int flags)
 		cm->cmsg_len = CMSG_LEN(sizeof(pi));
 		memset(&pi, 0, sizeof(pi));
 		memcpy(&pi.ipi_addr, inj_dest4, 4);
+		memcpy(CMSG_DATA(cm), &pi, sizeof(pi));
+		msg->msg_controllen = CMSG_SPACE(sizeof(pi));
+	} else if (inj_dest_family == 6 && msg->msg_control &&
+		   msg->msg_controllen >= CMSG_SPACE(sizeof(struct in6_pktinfo))) {
+		struct cmsghdr *cm;
+		struct in6_pktinfo pi;
+		memset(msg->msg_control, 0, msg->msg_controllen);
+		cm = CMSG_FIRSTHDR(msg);
+		cm->cmsg_level = IPPROTO_IPV6;
+		cm->cmsg_type = IPV6_PKTINFO;
+		cm->cmsg_len = CMSG_LEN(sizeof(pi));
+		memset(&pi, 0, sizeof(pi));
+		memcpy(&pi.ipi6_addr, inj_dest6, 16);
 		memcpy(CMSG_DATA(cm), &pi, sizeof(pi));
 		msg->msg_controllen = CMSG_SPACE(sizeof(pi));
 	} else
